@@ -135,7 +135,7 @@ func c03Gen(t *rapid.T, tier Tier) interface{} {
 		}
 		switch d.Origin {
 		case "author":
-			d.Carrier = rapid.SampledFrom([]string{"style", "style", "style", "link", "import", "import-media", "import-media-off", "import-for-screen", "media", "media-off", "nested-amp", "nested-desc", "own-then-nested", "nested-then-own", "attr", "attr", "hint"}).Draw(t, "carrier")
+			d.Carrier = rapid.SampledFrom([]string{"style", "style", "style", "link", "link-twice", "import", "import-media", "import-media-off", "import-for-screen", "media", "media-off", "nested-amp", "nested-desc", "own-then-nested", "nested-then-own", "attr", "attr", "hint"}).Draw(t, "carrier")
 		default:
 			d.Carrier = rapid.SampledFrom([]string{"style", "style", "media", "media-off", "import", "own-then-nested", "nested-then-own"}).Draw(t, "carrier2")
 		}
@@ -283,7 +283,7 @@ func c03Build(c *C03Case) (doc string, opts wr.Opts, cands []c03Cand) {
 		}
 		return 4
 	}
-	var ua, head strings.Builder
+	var ua, head, tail strings.Builder
 	var user []string
 	var attr []string
 	hintAttr := ""
@@ -362,8 +362,15 @@ func c03Build(c *C03Case) (doc string, opts wr.Opts, cands []c03Cand) {
 		if off {
 			applies = false
 		}
+		if d.Carrier == "link-twice" {
+			label = "link"
+		}
 		if applies {
 			add(d, d.Value, false, spec, order, d.Important, label)
+			if d.Carrier == "link-twice" {
+				// the same sheet linked again after every other author sheet: its rules appear again, last
+				add(d, d.Value, false, spec, 100000+order, d.Important, label)
+			}
 		} else if off && d.OwnValue > 0 {
 			// remove the parent's own candidate added above: the whole rule is in a non-matching block
 			if n := len(cands); n > 0 && cands[n-1].value == d.OwnValue {
@@ -376,8 +383,11 @@ func c03Build(c *C03Case) (doc string, opts wr.Opts, cands []c03Cand) {
 		case "user":
 			user = append(user, text)
 		default:
-			if d.Carrier == "link" {
+			if d.Carrier == "link" || d.Carrier == "link-twice" {
 				head.WriteString(`<link rel="stylesheet" href="` + dataCSS(text) + `">`)
+				if d.Carrier == "link-twice" {
+					tail.WriteString(`<link rel="stylesheet" href="` + dataCSS(text) + `">`)
+				}
 			} else {
 				head.WriteString("<style>" + text + "</style>")
 			}
@@ -391,7 +401,7 @@ func c03Build(c *C03Case) (doc string, opts wr.Opts, cands []c03Cand) {
 	if tag == "table" {
 		inner = "<tr><td>x</td></tr>"
 	}
-	doc = `<!DOCTYPE html><html><head>` + head.String() + `</head><body><div id="anc" class="anc"><` + tag + ` id="probe" class="c1 c2" data-a="x"` + hintAttr + styleAttr + `>` + inner + `</` + tag + `></div></body></html>`
+	doc = `<!DOCTYPE html><html><head>` + head.String() + tail.String() + `</head><body><div id="anc" class="anc"><` + tag + ` id="probe" class="c1 c2" data-a="x"` + hintAttr + styleAttr + `>` + inner + `</` + tag + `></div></body></html>`
 	opts = wr.Opts{Hints: c.Hints, Media: c.Media, UserCSS: user, UACSS: "html,body,div,p,table{display:block}\n@page{@footnote{margin:0}}\n" + ua.String()}
 	return doc, opts, cands
 }
